@@ -629,3 +629,32 @@ CHECKS["C09"] = dict(
     level_note="Trusted: ThreadSanitizer (gcc 12) and its interceptors; libstdc++ iostream internals are uninstrumented; searches inside sessions are tiny, so races deep inside the parallel "
                "search are covered only by the free-running complement.",
     **dict(C10_COMMON, oracle="no ThreadSanitizer report in any explored schedule (report text + schedule stored in the replay file); additionally the C10 oracles (deadlock, contract)"))
+
+# ------------------------------------------------------------------------------------------ C05
+def c05_parts(tier, seed):
+    q = tier == "quick"
+    return [
+        P("histories", "c05_uci", "seq" if q else "fast", ["--part", "histories", "--len", 3 if q else 4], require=["nontrivial"], deadline_frac=0.9),
+        P("garbage-lines", "c05_uci", "seq", ["--part", "garbage"], require=["nontrivial"], deadline_frac=0.9),
+        P("schedules", "c10_sessions", "sched", ["--part", "explore", "--threads", "1" if q else "1,2", "--bound", 1], require=["schedules"], deadline_frac=0.9),
+    ] + ([] if q else [P("histories-asan", "c05_uci", "seq", ["--part", "histories", "--len", 3], require=["nontrivial"], deadline_frac=0.5)])
+
+CHECKS["C05"] = dict(
+    parts=c05_parts,
+    rule="states = sessions executed (one forked child each; command sequences distinct by construction, schedules distinct by fingerprint); transitions = transcript lines judged "
+         "resp. scheduling points; non-trivial = the session contains at least one go / the schedule deviates from the default",
+    alphabet="histories: ALL command sequences of length <= L over 30 commands {uci, isready, ucinewgame, setoption x8 (Hash 1, Threads 2, MultiPV 2, Clear Hash, Ponder, Strength 0, an out-of-range "
+             "value, an unknown name), position x5 (startpos, with moves, stalemate FEN, one-legal-move FEN, malformed FEN), go x9 (depth, nodes, movetime, clock, mate, infinite, ponder, searchmoves, "
+             "no arguments), stop, ponderhit, quit, unknown word, blank line} ended by EOF, each in an eager (all at once) and a patient (await bestmove / readyok) delivery regime; "
+             "garbage: 35 malformed command lines alone, before a search, during a search and in all ordered pairs; schedules: the C10 script list under the controlled scheduler",
+    oracle="contract automaton on the transcript: one readyok per isready, one bestmove per go (after it; for infinite / ponder not before stop / ponderhit / quit / EOF / next go), no info after "
+           "a bestmove until the next go, every line well-formed, best moves legal, exit status 0, no signal, no sanitizer report, no hang (re-run alone with a 10x limit before calling it one)",
+    bound=dict(quick="L = 3 (27 930 sequences x 2 regimes, ASan/UBSan build), garbage pairs, schedules at delay bound 1 with Threads 1",
+               thorough="L = 4 restricted to sequences containing a go (~1.2 M sessions), schedules with Threads 1 and 2"),
+    assumptions=["sessions of ~60 commands are not enumerated; the controller's state (engine created?, searching?) is small and every combination is reached within 3 commands "
+                 "(the evidence lists the controller states seen)", "move lists given to 'position' are legal (illegal moves are outside the property's domain)"],
+    technique="bounded-exhaustive enumeration of command histories on the real UCI stack (fresh process per history) with a protocol automaton as oracle, plus delay-bounded schedule exploration",
+    level_text="Every command sequence up to the length bound, in two delivery regimes, is executed on the real protocol/engine threads and judged by a contract automaton; interleavings of "
+               "command arrival with search progress are explored by the controlled scheduler.",
+    level_note="Trusted: the transcript analyser; free-running sessions see the OS's schedule only (the scheduled part covers interleavings).",
+)
